@@ -17,7 +17,7 @@ func lemma_C11_prf_decode(tt uint8, id uint16, present bool, format uint8, at, a
 
 // key / output lengths: the hash output size (RFC 7296 2.13: preferred key size of an
 // HMAC PRF is its output size): MD5 16, SHA-1 20, SHA-256 32
-func lemma_C11_prf_roundtrip(sel uint8) {
+func lemma_C11_prf_roundtrip(sel uint8, jt uint8, jid uint16, jp bool, jf uint8, jat, jav uint16) {
 	name, id, n := PRF_HMAC_MD5, uint16(1), 16
 	switch sel % 3 {
 	case 1:
@@ -30,4 +30,9 @@ func lemma_C11_prf_roundtrip(sel uint8) {
 	tr := ToTransform(a)
 	verifAssert(tr.TransformType == 2 && tr.TransformID == id && !tr.AttributePresent, "C11/prf/transform-fields")
 	verifAssert(DecodeTransform(tr) == a, "C11/prf/transform-decodes-to-the-same-algorithm")
+	// whatever the caller then does to the transform it was handed, a later conversion
+	// of the same algorithm is unaffected: every conversion returns its own object
+	tr.TransformType, tr.TransformID, tr.AttributePresent, tr.AttributeFormat, tr.AttributeType, tr.AttributeValue = jt, jid, jp, jf, jat, jav
+	tr2 := ToTransform(a)
+	verifAssert(tr2.TransformType == 2 && tr2.TransformID == id && !tr2.AttributePresent && DecodeTransform(tr2) == a, "C11/prf/conversion-unaffected-by-edits-of-earlier-results")
 }
